@@ -35,6 +35,7 @@ UNIT_DEPS = {
     'prim_mul': ['mul', 'conv'],
     'round': ['core', 'pow10', 'types', 'context'],
     'config': ['types'],
+    'insig': ['round', 'config', 'types'],
     'clients': ['add', 'sub', 'mul', 'derived', 'prim_add', 'prim_sub', 'prim_mul', 'canon', 'cmp', 'scale', 'core'],
     'roots': ['core', 'context', 'config', 'cmp'],
     'inverse': ['core', 'context', 'config'],
@@ -84,6 +85,7 @@ _NOTE_COMMON = ('Assumed: num-bigint/num-traits/num-integer contracts (spec/shim
 _TECH = 'deductive verification with Verus: requires/ensures/loop invariants spliced onto functions re-extracted from /repo on every run'
 
 prop('C01', units=['add', 'sub', 'mul', 'derived', 'prim_add', 'prim_sub', 'prim_mul', 'core', 'scale', 'pow10', 'conv', 'canon'], level='proof',
+     hooks=[_h.kani_hook(['diff_i64', 'checked_diff_i64'])],
      level_text=('Verus proves, for every operand value and every scale within |s| <= 2^61, that each Add/Sub/Mul/Neg impl and compound '
                  'assignment (every owned/borrowed/reference-view/BigInt form, every arm of the primitive-integer macros at all ten integer '
                  'types by value and by reference), double/half/square/cube, abs and the alignment helpers return exactly the mathematical '
@@ -93,6 +95,7 @@ prop('C01', units=['add', 'sub', 'mul', 'derived', 'prim_add', 'prim_sub', 'prim
      technique=_TECH)
 
 prop('C02', units=['cmp', 'core', 'scale', 'digits', 'pow10'], level='proof',
+     hooks=[_h.kani_hook(['checked_diff_i64', 'a2_log2_scale'])],
      level_text=('Verus proves that cmp / partial_cmp on values and on reference views return exactly the comparison of the denoted numbers '
                  '(sign handling, checked scale difference with the order decided by the scales when it overflows, reversal for negatives; '
                  'compare_scaled_biguints: bit-length pre-filter, digit-count comparison and the digit-wise loop with its remaining-digits-all-zero tail) '
@@ -104,6 +107,7 @@ prop('C02', units=['cmp', 'core', 'scale', 'digits', 'pow10'], level='proof',
      technique=_TECH)
 
 prop('C06', units=['round', 'scale', 'context', 'config', 'core', 'pow10'], level='proof',
+     hooks=[_h.kani_hook(['round_pair_table', 'carries', 'diff_i64'])],
      level_text=('Verus proves on the real body of with_scale_round that the result carries exactly the requested scale and equals '
                  'sign * round_mag(|i|, k, mode) -- the mode table of the RoundingMode documentation applied to the whole discarded tail -- '
                  'in all three regimes (rounding point left of / at / inside the digits) including the carry loop; round_pair equals the '
@@ -113,6 +117,7 @@ prop('C06', units=['round', 'scale', 'context', 'config', 'core', 'pow10'], leve
      technique=_TECH)
 
 prop('C07', units=['prec', 'round', 'digits', 'context', 'config', 'add', 'core'], level='proof',
+     hooks=[_h.kani_hook(['a1_digit_estimate'])],
      level_text=('Verus proves that with_precision_round returns the input rounded at its p-th significant digit under the given mode (new scale = s + p - digits with '
                  'checked arithmetic that cannot fail under the scale bound; exact and zero-padded when the input has at most p digits), that Context::round_decimal, '
                  'round_decimal_ref, BigDecimalRef::round_with_context, Context::add_refs / add_refs_into (exact sum, then rounded) forward to it with the precision and mode of the context '
@@ -121,6 +126,7 @@ prop('C07', units=['prec', 'round', 'digits', 'context', 'config', 'add', 'core'
      technique=_TECH)
 
 prop('C08', units=['div', 'prim_div', 'inverse', 'digits', 'core', 'config', 'pow10', 'derived', 'conv'], level='proof',
+     hooks=[_h.kani_hook(['a1_digit_estimate'])],
      level_text=('Verus proves on the real body of impl_division (sign recursion, shift loop, digit loop, final rounding) that the result is '
                  'sign * (floor(E/|d|) rounded half-up on the remainder) with E = |n|*10^(S-s0), that digits are dropped only once the quotient has '
                  'max_precision digits (so a quotient that terminates earlier is returned exactly), loop termination, and freedom from i64 overflow; '
@@ -203,6 +209,7 @@ prop('C20', units=['config', 'context', 'round', 'div'], level='proof',
      technique=_TECH + '; configuration constants as uninterpreted symbols')
 
 prop('C18', units=['pow10', 'core', 'canon', 'scale', 'digits'], level='proof',
+     hooks=[_h.kani_hook(['a1_digit_estimate', 'diff_i64'])],
      level_text=('Verus proves field-exact postconditions for constructors, accessors and reference views (with the reference view\'s sign/magnitude '
                  'invariant as a checked type invariant), 10^pow for all three algorithms of ten_to_the_uint and every pow, digits() == exact decimal digit count '
                  '(upward correction loop from the f64 estimate, which enters as named axiom A1), exact multiplication by the '
